@@ -1663,6 +1663,26 @@ class Interp:
         return set(out)
 
     def e_DictComp(self, node, frame):
+        if len(node.generators) == 1 and not node.generators[0].ifs:
+            from . import models as _models
+            call = node.generators[0].iter
+            src = self.eval(call, frame)
+            if isinstance(src, (SOpt, SChoice)):
+                src = self.resolve(src)
+            if isinstance(src, _models.SMapItems):
+                return _models.smap_dictcomp(self, node, frame, src)
+            out = {}
+
+            def add1(fr):
+                k = self.eval(node.key, fr)
+                if isinstance(k, SChoice):
+                    k = self.resolve(k)
+                if contains_sym(k, 0):
+                    raise Unsupported('dict comprehension with symbolic key')
+                out[k] = self.eval(node.value, fr)
+
+            self._comp(node.generators, 0, frame, frame.locals, add1, first_iter=src)
+            return out
         out = {}
 
         def add(fr):
